@@ -1,9 +1,16 @@
 import AlgoVerif.Model.C02Run
+import AlgoVerif.Model.C02Hash
 /-!
-Line-protocol component for C02 (also used by C03).  Keys and values are `Int`.
+Line-protocol component for C02 (also used by C03).  Values are `Int`; keys are `Int`, or byte strings
+written `x<hex>` when the header says `keys=str` (Go `string` keys).
 
 Header: `comp=chain|linear|quadratic|double hash=fnv|id|const|mod3|modm cap=<n> minlf=<a>/<b>
-maxlf=<a>/<b> shuffle=<seed>` (`cap=0` / missing load factors select the defaults).
+maxlf=<a>/<b> shuffle=<seed>` (`cap=0` / missing load factors select the defaults); with `keys=str`:
+`hash=fnvstr|const|len|first`.  `hash=fnv` is the library's default `hash.HashFuncForInt[int](nil)`,
+`hash=fnvstr` its default `hash.HashFuncForString[string](nil)` — both from `Model/C02Hash.lean`.
+
+Component `comp=hashfn fam=<F>`: a call history of `hash.HashFuncFor<F>(nil)` closures (two instances, the
+op prefix `b.` selects the second): `h <arg>` prints the hash the Model's pure function assigns to `<arg>`.
 
 Ops (`b.` prefix = second table): `put k v`, `get k`, `delete k`, `deleteall`, `size`, `isempty`,
 `all`, `equal`, `dump`, `probes k`.  Mutating ops print the result followed by ` | ` and a summary
@@ -19,14 +26,8 @@ open AlgoVerif AlgoVerif.C02
 
 def toU64 (k : Int) : UInt64 := UInt64.ofNat (k % (18446744073709551616 : Int)).toNat
 
-/-- FNV-1 (64 bit) of the 8 little-endian bytes of a Go `int`: `hash.HashFuncForInt[int](nil)` -/
-def fnv1 (k : Int) : UInt64 := Id.run do
-  let x := toU64 k
-  let mut h : UInt64 := 14695981039346656037
-  for i in [0:8] do
-    h := h * 1099511628211
-    h := h ^^^ ((x >>> (UInt64.ofNat (8 * i))) &&& 255)
-  return h
+/-- `hash.HashFuncForInt[int](nil)`: the Model's pure function (FNV-1 of the 8 little-endian bytes) -/
+def fnv1 (k : Int) : UInt64 := Hash.forInt k
 
 def emod (k : Int) (q : Nat) : UInt64 := UInt64.ofNat (k % (q : Int)).toNat
 
@@ -103,19 +104,82 @@ def showPairs (l : List (Int × Int)) : String :=
   let sorted := l.mergeSort (fun a b => a.1 < b.1 || (a.1 == b.1 && a.2 ≤ b.2))
   "[" ++ " ".intercalate (sorted.map fun e => s!"({e.1},{e.2})") ++ "]"
 
-/-- what the driver needs to print about a table of type `T` -/
-structure Describe (T : Type) where
+/-- how keys of type `K` are read, printed and folded into the state digest -/
+structure KeyIO (K : Type) where
+  parse : String → Option K
+  render : K → String
+  dig : K → UInt64
+  showPairs : List (K × Int) → String
+
+def intKeys : KeyIO Int where
+  parse := parseInt?
+  render := toString
+  dig := toU64
+  showPairs := showPairs
+
+def hexDigit (n : Nat) : Char := if n < 10 then Char.ofNat (48 + n) else Char.ofNat (87 + n)
+
+/-- `x` followed by two lower-case hex digits per byte (`x` alone: the empty string) -/
+def renderBytes (b : Hash.Bytes) : String :=
+  String.ofList ('x' :: b.flatMap fun c => [hexDigit (c.toNat / 16), hexDigit (c.toNat % 16)])
+
+def hexVal (c : Char) : Option Nat :=
+  if '0' ≤ c && c ≤ '9' then some (c.toNat - 48)
+  else if 'a' ≤ c && c ≤ 'f' then some (c.toNat - 87)
+  else none
+
+def parseHexPairs : List Char → Option Hash.Bytes
+  | [] => some []
+  | a :: b :: r =>
+    match hexVal a, hexVal b, parseHexPairs r with
+    | some x, some y, some t => some (UInt8.ofNat (16 * x + y) :: t)
+    | _, _, _ => none
+  | _ => none
+
+def parseBytes (s : String) : Option Hash.Bytes :=
+  match s.toList with
+  | 'x' :: r => parseHexPairs r
+  | _ => none
+
+/-- digest of a byte-string key: FNV-1a over its bytes (only used to fold keys into the state digest) -/
+def bytesDig (b : Hash.Bytes) : UInt64 := b.foldl (fun d c => fnvStep d c.toUInt64) 14695981039346656037
+
+def showPairsB (l : List (Hash.Bytes × Int)) : String :=
+  let r := l.map fun e => (renderBytes e.1, e.2)
+  let sorted := r.mergeSort (fun a b => a.1 < b.1 || (a.1 == b.1 && a.2 ≤ b.2))
+  "[" ++ " ".intercalate (sorted.map fun e => s!"({e.1},{e.2})") ++ "]"
+
+def strKeys : KeyIO Hash.Bytes where
+  parse := parseBytes
+  render := renderBytes
+  dig := bytesDig
+  showPairs := showPairsB
+
+/-- hash functions of the harness for string keys -/
+def hashOfBytes (name : String) : Hash.Bytes → UInt64 :=
+  match name with
+  | "fnvstr" => Hash.forString
+  | "const" => fun _ => 5
+  | "len" => fun b => UInt64.ofNat b.length
+  | "first" => fun b => match b with | c :: _ => c.toUInt64 | [] => 0
+  | _ => Hash.forString
+
+/-- what the driver needs to print about a table of type `T` with keys of type `K` -/
+structure Describe (K T : Type) where
   summary : T → String
   dump : T → String
-  probes : T → Int → String
+  probes : T → K → String
 
-def oaDigest (t : OATable Int Int) : UInt64 := Id.run do
+section
+variable {K : Type} [DecidableEq K]
+
+def oaDigest (io : KeyIO K) (t : OATable K Int) : UInt64 := Id.run do
   let mut d : UInt64 := 14695981039346656037
   let mut i := 0
   for s in t.slots do
     match s with
     | some e =>
-      d := fnvStep (fnvStep (fnvStep (fnvStep d (UInt64.ofNat i)) (toU64 e.key)) (toU64 e.val)) (if e.deleted then 1 else 0)
+      d := fnvStep (fnvStep (fnvStep (fnvStep d (UInt64.ofNat i)) (io.dig e.key)) (toU64 e.val)) (if e.deleted then 1 else 0)
     | none => pure ()
     i := i + 1
   return d
@@ -124,14 +188,14 @@ def oaName : Kind → String
   | .quad => "quadratic"
   | .dbl => "double"
 
-def oaDescribe (hash : Int → UInt64) : Describe (OATable Int Int) where
-  summary t := s!"m={t.m} n={t.n} u={t.u} p={t.p} h={hex16 (oaDigest t)}"
+def oaDescribe (io : KeyIO K) (hash : K → UInt64) : Describe K (OATable K Int) where
+  summary t := s!"m={t.m} n={t.n} u={t.u} p={t.p} h={hex16 (oaDigest io t)}"
   dump t := Id.run do
     let mut parts : Array String := #[]
     let mut i := 0
     for s in t.slots do
       match s with
-      | some e => parts := parts.push s!"{i}:({e.key},{e.val},{if e.deleted then "D" else "L"})"
+      | some e => parts := parts.push s!"{i}:({io.render e.key},{e.val},{if e.deleted then "D" else "L"})"
       | none => pure ()
       i := i + 1
     return s!"{oaName t.kind} m={t.m} n={t.n} u={t.u} p={t.p} [" ++ " ".intercalate parts.toList ++ "]"
@@ -139,24 +203,24 @@ def oaDescribe (hash : Int → UInt64) : Describe (OATable Int Int) where
     let sh := fun (o : Option Nat) => match o with | some c => toString c | none => "-1"
     s!"get={sh (OA.probesGet t (mix (hash k)) k (4 * t.m + 4) 0)} find={sh (OA.probesFind t (mix (hash k)) k (4 * t.m + 4) 0)}"
 
-def linDigest (t : LinTable Int Int) : UInt64 := Id.run do
+def linDigest (io : KeyIO K) (t : LinTable K Int) : UInt64 := Id.run do
   let mut d : UInt64 := 14695981039346656037
   let mut i := 0
   for s in t.slots do
     match s with
-    | some e => d := fnvStep (fnvStep (fnvStep (fnvStep d (UInt64.ofNat i)) (toU64 e.1)) (toU64 e.2)) 0
+    | some e => d := fnvStep (fnvStep (fnvStep (fnvStep d (UInt64.ofNat i)) (io.dig e.1)) (toU64 e.2)) 0
     | none => pure ()
     i := i + 1
   return d
 
-def linDescribe (hash : Int → UInt64) : Describe (LinTable Int Int) where
-  summary t := s!"m={t.m} n={t.n} u={t.n} p=0 h={hex16 (linDigest t)}"
+def linDescribe (io : KeyIO K) (hash : K → UInt64) : Describe K (LinTable K Int) where
+  summary t := s!"m={t.m} n={t.n} u={t.n} p=0 h={hex16 (linDigest io t)}"
   dump t := Id.run do
     let mut parts : Array String := #[]
     let mut i := 0
     for s in t.slots do
       match s with
-      | some e => parts := parts.push s!"{i}:({e.1},{e.2},L)"
+      | some e => parts := parts.push s!"{i}:({io.render e.1},{e.2},L)"
       | none => pure ()
       i := i + 1
     return s!"linear m={t.m} n={t.n} u={t.n} p=0 [" ++ " ".intercalate parts.toList ++ "]"
@@ -165,28 +229,30 @@ def linDescribe (hash : Int → UInt64) : Describe (LinTable Int Int) where
     let c := sh (Lin.probes t (mix (hash k)) k (4 * t.m + 4) 0)
     s!"get={c} find={c}"
 
-def chainDigest (t : ChainTable Int Int) : UInt64 := Id.run do
+def chainDigest (io : KeyIO K) (t : ChainTable K Int) : UInt64 := Id.run do
   let mut d : UInt64 := 14695981039346656037
   let mut i := 0
   for b in t.buckets do
     for e in b do
-      d := fnvStep (fnvStep (fnvStep (fnvStep d (UInt64.ofNat i)) (toU64 e.1)) (toU64 e.2)) 0
+      d := fnvStep (fnvStep (fnvStep (fnvStep d (UInt64.ofNat i)) (io.dig e.1)) (toU64 e.2)) 0
     i := i + 1
   return d
 
-def chainDescribe (hash : Int → UInt64) : Describe (ChainTable Int Int) where
-  summary t := s!"m={t.m} n={t.n} u={t.n} p=0 h={hex16 (chainDigest t)}"
+def chainDescribe (io : KeyIO K) (hash : K → UInt64) : Describe K (ChainTable K Int) where
+  summary t := s!"m={t.m} n={t.n} u={t.n} p=0 h={hex16 (chainDigest io t)}"
   dump t := Id.run do
     let mut parts : Array String := #[]
     let mut i := 0
     for b in t.buckets do
       for e in b do
-        parts := parts.push s!"{i}:({e.1},{e.2},L)"
+        parts := parts.push s!"{i}:({io.render e.1},{e.2},L)"
       i := i + 1
     return s!"chain m={t.m} n={t.n} u={t.n} p=0 [" ++ " ".intercalate parts.toList ++ "]"
   probes t k :=
     let c := Chain.nodesVisited k (t.buckets[Chain.hashIdx t.m (mix (hash k))]?.getD [])
     s!"get={c} find={c}"
+
+end
 
 def showOpt : Option Int → String
   | some v => s!"some {v}"
@@ -194,28 +260,31 @@ def showOpt : Option Int → String
 
 /-! ### the op loop -/
 
-def parseOp (ws : List String) : Option (Op Int Int ⊕ (Bool × String × Option Int)) :=
+section
+variable {K : Type} [DecidableEq K]
+
+def parseOp (io : KeyIO K) (ws : List String) : Option (Op K Int ⊕ (Bool × String × Option K)) :=
   -- `inl`: an operation of the Model; `inr (b, "dump"|"probes", arg)`: an observation of the driver
   let (b, ws) : Bool × List String :=
     match ws with
     | w :: rest => if w.startsWith "b." then (true, (w.drop 2).toString :: rest) else (false, ws)
     | [] => (false, [])
   match ws with
-  | ["put", k, v] => match parseInt? k, parseInt? v with
+  | ["put", k, v] => match io.parse k, parseInt? v with
     | some k, some v => some (.inl (.put b k v))
     | _, _ => none
-  | ["get", k] => (parseInt? k).map fun k => .inl (.get b k)
-  | ["delete", k] => (parseInt? k).map fun k => .inl (.delete b k)
+  | ["get", k] => (io.parse k).map fun k => .inl (.get b k)
+  | ["delete", k] => (io.parse k).map fun k => .inl (.delete b k)
   | ["deleteall"] => some (.inl (.deleteAll b))
   | ["size"] => some (.inl (.size b))
   | ["isempty"] => some (.inl (.isEmpty b))
   | ["all"] => some (.inl (.all b))
   | ["equal"] => some (.inl .equal)
   | ["dump"] => some (.inr (b, "dump", none))
-  | ["probes", k] => (parseInt? k).map fun k => .inr (b, "probes", some k)
+  | ["probes", k] => (io.parse k).map fun k => .inr (b, "probes", some k)
   | _ => none
 
-def renderOut {T : Type} (D : Describe T) (s : State T Rng) (op : Op Int Int) (o : Out Int Int) : String :=
+def renderOut {T : Type} (io : KeyIO K) (D : Describe K T) (s : State T Rng) (op : Op K Int) (o : Out K Int) : String :=
   match op, o with
   | .put b _ _, _ => s!"ok | {D.summary (s.sel b)}"
   | .delete b _, .val r => s!"ok {showOpt r} | {D.summary (s.sel b)}"
@@ -224,9 +293,9 @@ def renderOut {T : Type} (D : Describe T) (s : State T Rng) (op : Op Int Int) (o
   | _, .val r => s!"ok {showOpt r}"
   | _, .bool r => s!"ok {showBool r}"
   | _, .int r => s!"ok {r}"
-  | _, .list l => s!"ok {showPairs l}"
+  | _, .list l => s!"ok {io.showPairs l}"
 
-def runWith {T : Type} (I : Impl Int Int Rng T) (D : Describe T) (init : Outcome (State T Rng))
+def runWith {T : Type} (io : KeyIO K) (I : Impl K Int Rng T) (D : Describe K T) (init : Outcome (State T Rng))
     (ops : List String) : List String := Id.run do
   match init with
   | .ok s0 =>
@@ -235,18 +304,22 @@ def runWith {T : Type} (I : Impl Int Int Rng T) (D : Describe T) (init : Outcome
     let mut out : Array String := #[]
     for line in ops do
       if dead then out := out.push "skip"; continue
-      match parseOp (words line) with
+      match parseOp io (words line) with
       | none => out := out.push "bad-op"
       | some (.inr (b, what, arg)) =>
         if what == "dump" then out := out.push s!"ok {D.dump (s.sel b)}"
-        else out := out.push s!"ok {D.probes (s.sel b) (arg.getD 0)}"
+        else match arg with
+          | some k => out := out.push s!"ok {D.probes (s.sel b) k}"
+          | none => out := out.push "bad-op"
       | some (.inl op) =>
         match step I s op with
-        | .ok (s', o) => s := s'; out := out.push (renderOut D s' op o)
+        | .ok (s', o) => s := s'; out := out.push (renderOut io D s' op o)
         | .panic => dead := true; out := out.push "panic"
         | .diverge => dead := true; out := out.push "hang"
     return out.toList
   | _ => return ops.map fun _ => "panic"
+
+end
 
 def parseLF (s : Option String) : LF :=
   match s with
@@ -258,24 +331,74 @@ def parseLF (s : Option String) : LF :=
 
 def eqI (a b : Int) : Bool := a == b
 
-def runCase (hdr : List String) (ops : List String) : List String :=
+/-! ### component `hashfn`: call histories of the `HashFuncFor*` closures -/
+
+def splitList (s : String) : List String := if s == "-" then [] else s.splitOn ","
+
+def parsePair (s : String) : Option (Nat × Nat) :=
+  match s.splitOn ":" with
+  | [a, b] => match a.toNat?, b.toNat? with
+    | some x, some y => some (x, y)
+    | _, _ => none
+  | _ => none
+
+def parseBoolTok (s : String) : Option Bool :=
+  if s == "true" then some true else if s == "false" then some false else none
+
+def parseArg (sh : Hash.Shape) (s : String) : Option Hash.Arg :=
+  match sh with
+  | .bool => (parseBoolTok s).map .bool
+  | .int => s.toInt?.map .int
+  | .nat => s.toNat?.map .nat
+  | .pair => (parsePair s).map .pair
+  | .bytes => (parseBytes s).map .bytes
+  | .bools => ((splitList s).mapM parseBoolTok).map .bools
+  | .ints => ((splitList s).mapM String.toInt?).map .ints
+  | .nats => ((splitList s).mapM String.toNat?).map .nats
+  | .pairs => ((splitList s).mapM parsePair).map .pairs
+  | .strs => ((splitList s).mapM parseBytes).map .strs
+
+/-- the Model has no instance state: `h x` and `b.h x` print the same pure function of `x` -/
+def runHashFn (fam : String) (ops : List String) : List String :=
+  match Hash.families.lookup fam with
+  | none => ops.map fun _ => "bad-case"
+  | some shape =>
+    ops.map fun line =>
+      match words line with
+      | [op, a] =>
+        if op == "h" || op == "b.h" then
+          match (parseArg shape a).bind (Hash.hashOf fam) with
+          | some v => s!"ok {hex16 v}"
+          | none => "bad-op"
+        else "bad-op"
+      | _ => "bad-op"
+
+def runTables {K : Type} [DecidableEq K] (io : KeyIO K) (hashFor : Nat → K → UInt64) (hdr : List String)
+    (ops : List String) : List String :=
   let cap := headerNat hdr "cap" 0
   let opts : Opts := ⟨cap, parseLF (headerGet hdr "minlf"), parseLF (headerGet hdr "maxlf")⟩
   let g := Rng.ofSeed (headerInt hdr "shuffle" 0)
-  let hname := (headerGet hdr "hash").getD "fnv"
   match headerGet hdr "comp" with
   | some "quadratic" =>
-    let hash := hashOf hname (if cap = 0 then Kind.quad.minM else cap)
-    runWith (OA.impl shuffle hash eqI) (oaDescribe hash) (initState (OA.new .quad opts) g) ops
+    let hash := hashFor (if cap = 0 then Kind.quad.minM else cap)
+    runWith io (OA.impl shuffle hash eqI) (oaDescribe io hash) (initState (OA.new .quad opts) g) ops
   | some "double" =>
-    let hash := hashOf hname (if cap = 0 then Kind.dbl.minM else cap)
-    runWith (OA.impl shuffle hash eqI) (oaDescribe hash) (initState (OA.new .dbl opts) g) ops
+    let hash := hashFor (if cap = 0 then Kind.dbl.minM else cap)
+    runWith io (OA.impl shuffle hash eqI) (oaDescribe io hash) (initState (OA.new .dbl opts) g) ops
   | some "linear" =>
-    let hash := hashOf hname (if cap = 0 then AlgoVerif.Generated.symboltable_lpMinM else cap)
-    runWith (Lin.impl shuffle hash eqI) (linDescribe hash) (initState (Lin.new opts) g) ops
+    let hash := hashFor (if cap = 0 then AlgoVerif.Generated.symboltable_lpMinM else cap)
+    runWith io (Lin.impl shuffle hash eqI) (linDescribe io hash) (initState (Lin.new opts) g) ops
   | some "chain" =>
-    let hash := hashOf hname (if cap = 0 then AlgoVerif.Generated.symboltable_scMinM else cap)
-    runWith (Chain.impl shuffle hash eqI) (chainDescribe hash) (initState (Chain.new opts) g) ops
+    let hash := hashFor (if cap = 0 then AlgoVerif.Generated.symboltable_scMinM else cap)
+    runWith io (Chain.impl shuffle hash eqI) (chainDescribe io hash) (initState (Chain.new opts) g) ops
   | _ => ops.map fun _ => "bad-case"
+
+def runCase (hdr : List String) (ops : List String) : List String :=
+  if headerGet hdr "comp" == some "hashfn" then
+    runHashFn ((headerGet hdr "fam").getD "") ops
+  else if headerGet hdr "keys" == some "str" then
+    runTables strKeys (fun _ => hashOfBytes ((headerGet hdr "hash").getD "fnvstr")) hdr ops
+  else
+    runTables intKeys (fun cap0 => hashOf ((headerGet hdr "hash").getD "fnv") cap0) hdr ops
 
 end AlgoVerif.C02.Driver
